@@ -171,6 +171,37 @@ def check_after_change(res, coll, concat, lengths, inp):
         except Exception as e:  # noqa: BLE001
             res.fail("C16:after-member-change:raised", f"after a member changed and update_self_config(): {type(e).__name__}: {e}", step, repr(e))
             return
+    # length-preserving changes (the total does not move, so nothing that only watches counts notices): the member order is reversed; then one
+    # member is replaced by a dataset holding the same mazes in reverse order
+    for what in ("reverse-members", "reverse-one-member"):
+        if what == "reverse-members":
+            if len(coll.maze_datasets) < 2:
+                continue
+            coll.maze_datasets.reverse()
+        else:
+            ks2 = [k for k, d in enumerate(coll.maze_datasets) if len(d) >= 2]
+            if not ks2:
+                continue
+            old = coll.maze_datasets[ks2[0]]
+            coll.maze_datasets[ks2[0]] = MazeDataset(old.cfg, mazes=list(old.mazes[::-1]))
+        concat = [m for d in coll.maze_datasets for m in d.mazes]
+        lengths = [len(d) for d in coll.maze_datasets]
+        step = {**inp, "then": f"{what} (total length unchanged); update_self_config()"}
+        try:
+            coll.update_self_config()
+            total = len(concat)
+            facts = {"len": len(coll), "dataset_lengths": [int(x) for x in coll.dataset_lengths], "cum": [int(x) for x in coll.dataset_cum_lengths],
+                     "n_mazes": int(coll.cfg.n_mazes), "len(mazes)": len(coll.mazes)}
+            want = {"len": total, "dataset_lengths": lengths, "cum": list(itertools.accumulate(lengths)), "n_mazes": total, "len(mazes)": total}
+            if facts != want:
+                res.fail("C16:after-member-change:counts", f"after {what} and update_self_config(): {facts}, expected {want}", step, facts)
+            for i in range(total):
+                if coll[i] is not concat[i] or coll.mazes[i] is not concat[i]:
+                    res.fail("C16:after-member-change:items", f"after {what} and update_self_config(): item {i} is not element {i} of the new concatenation", {**step, "index": i}, None)
+                    break
+        except Exception as e:  # noqa: BLE001
+            res.fail("C16:after-member-change:raised", f"after {what} and update_self_config(): {type(e).__name__}: {e}", step, repr(e))
+            return
 
 
 def run(tier, seed):
@@ -181,7 +212,7 @@ def run(tier, seed):
         "C16.collection-is-concatenation",
         rule=f"every vector of member lengths over {{0,1,2,3}} of length 1..{max_len} (zeros anywhere, repeated zeros), neighbouring members of different grid size, "
         "x 4 ways the member configs relate to the listed configs (same objects / equal copies, declared counts right / stale); "
-        "the list handed to the constructor is extended by the caller afterwards (the collection must not follow it); every index 0<=i<len compared by object identity with the Python concatenation of the member lists; then (multi-step) a member is replaced by a shorter / empty dataset, "
+        "the list handed to the constructor is extended by the caller afterwards (the collection must not follow it); every index 0<=i<len compared by object identity with the Python concatenation of the member lists; then (multi-step) a member is replaced by a shorter / empty dataset, then (total length unchanged) the member order is reversed and one member is replaced by its own mazes in reverse order, "
         "update_self_config() is called and everything is compared with the new concatenation; non-trivial = at least one maze; "
         "distinct by (lengths, variant)",
         exhaustive=True,
